@@ -479,6 +479,9 @@ class Interp:
                     return set(base)
                 if fn.attr == "issubset":
                     return set(base).issubset(args[0])
+            if isinstance(base, str) and fn.attr in ("lower", "upper", "strip", "lstrip", "rstrip", "replace", "startswith",
+                                                     "endswith", "split", "format", "join", "title", "capitalize"):
+                return getattr(base, fn.attr)(*args, **kwargs)
             if isinstance(base, dict):
                 if fn.attr == "get":
                     return base.get(args[0], args[1] if len(args) > 1 else None)
